@@ -3,7 +3,7 @@
 //!   params: `x: i32|u32|u8|bool|...`, `x: &mut u32` (threaded: returned as first tuple component)
 //!   stmts : `*x += e;`  `x += e;`  `let x = e;`  tail expression
 //!   exprs : int literals, paths, `-e`, `!e`, `e + e`, `e - e`, comparisons, `if c {a} else {b}`,
-//!           `[e, ...]` / `[e; n]` byte arrays, `e.is_negative()`, `e.to_be_bytes()`, `a.concat(b)`,
+//!           `[e, ...]` / `[e; n]` byte arrays, `e.is_negative()`, `e.saturating_abs()`, `e.to_be_bytes()`, `a.concat(b)`,
 //!           identity wrappers `GenericArray::from(e)`, `e.into()`, `T(e)` for a tuple-struct `T`.
 //! Fixed-width arithmetic keeps Rust's wrapping result *and* emits `<fn>_overflows`, true exactly
 //! where a debug build panics ("attempt to add/negate with overflow").
@@ -108,6 +108,8 @@ impl Tr {
                 let name = m.method.to_string();
                 let (v, o, t) = self.expr(&m.receiver, expect)?;
                 match (name.as_str(), m.args.len()) {
+                    ("saturating_abs", 0) if signed(&t) =>
+                        Ok((format!("(if {v} == {ty}.minValue then {ty}.maxValue else if decide ({v} < 0) then (-{v}) else {v})", ty = lean_ty(&t)), o, t)),
                     ("is_negative", 0) if signed(&t) => Ok((format!("(decide ({v} < 0))"), o, Ty::Bool)),
                     ("to_be_bytes", 0) if t == Ty::U32 => Ok((format!("(IsoMdl.be32 {v})"), o, Ty::Bytes)),
                     ("into", 0) | ("to_vec", 0) | ("clone", 0) => Ok((v, o, t)),
